@@ -148,40 +148,45 @@ fn check_world(st: &mut State, when: &str, la: &[Entry]) -> VResult {
     let holders_plain = st.slots.iter().flatten().filter(|p| p.ctxsel == 2).count() as i64;
     let _ = la;
     let strong = st.ctx_weak.strong_count() as i64;
-    if strong != holders_arc {
-        if st.leaked_arc > 0 && strong == holders_arc + st.leaked_arc {
-            // reported by the caller as a finding (needs RunCtx)
-        } else {
-            let class = if strong < holders_arc { "ctx.released_early" } else { "ctx.count_excess" };
-            return Err(Violation::new(class, "arc", format!("{}: reference-counted context has strong count {} but {} live holder(s) (objects carrying it + the harness's own handle){}", when, strong, holders_arc,
-                if st.leaked_arc > 0 { format!("; {} borrowed wrapped return(s) were made (known leak would give {})", st.leaked_arc, holders_arc + st.leaked_arc) } else { String::new() })));
-        }
+    // Every live holder owns one clone. A borrowed wrapped return may additionally keep a clone alive
+    // (in the parent's temporary slot) — how long is the implementation's business, so between
+    // `holders` and `holders + borrowed returns made so far` everything is accepted while objects
+    // live. What is left when no holder remains is judged below and at quiescence.
+    if strong < holders_arc || strong > holders_arc + st.leaked_arc {
+        let class = if strong < holders_arc { "ctx.released_early" } else { "ctx.count_excess" };
+        return Err(Violation::new(class, "arc", format!("{}: reference-counted context has strong count {} but {} live holder(s) (objects carrying it + the harness's own handle){}", when, strong, holders_arc,
+            if st.leaked_arc > 0 { format!("; {} borrowed wrapped return(s) were made, so at most {} is explicable", st.leaked_arc, holders_arc + st.leaked_arc) } else { String::new() })));
+    }
+    if holders_arc == 0 && strong != 0 && strong != st.leaked_arc {
+        return Err(Violation::new("ctx.count_excess", "arc", format!("{}: no holder of the context is left but its strong count is {} ({} borrowed wrapped return(s) were made; the recorded known finding leaks exactly one clone per such return)", when, strong, st.leaked_arc)));
     }
     let unloads = w.unloads.load(Ordering::SeqCst);
-    if holders_arc == 0 && st.leaked_arc == 0 {
+    if holders_arc == 0 && strong == 0 {
         vcheck!(unloads == 1 && !w.lib_loaded.load(Ordering::SeqCst), "ctx.not_released", "unload", "{}: no holder of the context is left but it was released {} time(s)", when, unloads);
     } else if holders_arc > 0 {
         vcheck!(unloads == 0, "ctx.released_early", "unload", "{}: the context was released while {} holder(s) exist", when, holders_arc);
     }
     let plain = w.plain_live.load(Ordering::SeqCst);
-    if plain != holders_plain {
-        if st.leaked_plain > 0 && plain == holders_plain + st.leaked_plain {
-        } else {
-            let class = if plain < holders_plain { "ctx.released_early" } else { "ctx.count_excess" };
-            return Err(Violation::new(class, "plain", format!("{}: {} live clone(s) of the plain context but {} live holder(s){}", when, plain, holders_plain,
-                if st.leaked_plain > 0 { format!("; {} borrowed wrapped return(s) were made", st.leaked_plain) } else { String::new() })));
-        }
+    if plain < holders_plain || plain > holders_plain + st.leaked_plain {
+        let class = if plain < holders_plain { "ctx.released_early" } else { "ctx.count_excess" };
+        return Err(Violation::new(class, "plain", format!("{}: {} live clone(s) of the plain context but {} live holder(s){}", when, plain, holders_plain,
+            if st.leaked_plain > 0 { format!("; {} borrowed wrapped return(s) were made", st.leaked_plain) } else { String::new() })));
+    }
+    if holders_plain == 0 && plain != 0 && plain != st.leaked_plain {
+        return Err(Violation::new("ctx.count_excess", "plain", format!("{}: no holder of the plain context is left but {} clone(s) are alive ({} borrowed wrapped return(s) were made)", when, plain, st.leaked_plain)));
     }
     simcore::check_alloc("life")
 }
 
 fn note_findings(st: &State, ctx: &mut RunCtx) {
+    // the known finding is reported where it is unambiguous: nobody holds the context any more, yet
+    // exactly one clone per borrowed wrapped return is still alive
     let holders_arc = st.ctx_handle.is_some() as i64 + st.slots.iter().flatten().filter(|p| is_arc(p.ctxsel)).count() as i64;
-    if st.leaked_arc > 0 && st.ctx_weak.strong_count() as i64 == holders_arc + st.leaked_arc {
+    if holders_arc == 0 && st.leaked_arc > 0 && st.ctx_weak.strong_count() as i64 == st.leaked_arc {
         ctx.finding("ctx.clone_leak", "borrowed wrapped return (wrap_with_obj_ref|obj_mut|group_ref|group_mut), reference-counted context");
     }
     let holders_plain = st.slots.iter().flatten().filter(|p| p.ctxsel == 2).count() as i64;
-    if st.leaked_plain > 0 && st.world.plain_live.load(Ordering::SeqCst) == holders_plain + st.leaked_plain {
+    if holders_plain == 0 && st.leaked_plain > 0 && st.world.plain_live.load(Ordering::SeqCst) == st.leaked_plain {
         ctx.finding("ctx.clone_leak", "borrowed wrapped return (wrap_with_obj_ref|obj_mut|group_ref|group_mut), plain Clone context");
     }
 }
